@@ -600,6 +600,38 @@ def gen(repo):
          em.function([("decl", "double", "m2", parse_expr(e1)), ("return", parse_expr(e2))]),
          "localnetworkxml.cpp <cov-mat>: `m2 = m_0()*m_0(); m2*qxx(i,j)`")
 
+    # ---- XML writer, <standard-deviation>: <aposteriori> repeats the formula, <ratio> is guarded by `dof != 0`
+    m1 = re.search(r'tagnl\(out,\s*"aposteriori",\s*\((.*?)\)\);\s*tagnl\(out,\s*"used"', x, re.S)
+    if not m1:
+        raise Unreadable("localnetworkxml.cpp: <aposteriori> changed")
+    e1 = m1.group(1).replace("netinfo->", "")
+    emit("xmlAposteriori", "(phi : K) (dof : Int)", "K",
+         Emit({"phi": "K", "dof": "Int"}).function([("return", parse_expr(e1))]),
+         "localnetworkxml.cpp std_dev_summary: the value printed as <aposteriori>")
+    m1 = re.search(r'if\s*\(\s*const\s+int\s+dof\s*=\s*netinfo->degrees_of_freedom\(\)\s*\)\s*\{\s*'
+                   r'double\s+test\s*=\s*([^;]+);(.*?)\}\s*else\s*\{(.*?)\}', x, re.S)
+    if (not m1 or not re.search(r'tagnl\(out,\s*"ratio",\s*test\)', m1.group(2))
+            or not re.search(r'tagnl\(out,\s*"ratio",\s*0\)', m1.group(3))
+            or re.search(r'\btest\s*[-+*/]?=[^=]', m1.group(2))):
+        raise Unreadable("localnetworkxml.cpp: <ratio> changed")
+    e1 = m1.group(1).replace("netinfo->m_0_aposteriori_value()", "M0APOST").replace("netinfo->apriori_m_0()", "sigmaApr")
+    body = Emit({"M0APOST": "K", "sigmaApr": "K"}).function([("return", parse_expr(e1))])
+    body = body.strip().replace("M0APOST", "m0Aposteriori phi dof")
+    emit("xmlRatio", "(phi sigmaApr : K) (dof : Int)", "K", f"  if dof ≠ 0 then {body} else 0",
+         "localnetworkxml.cpp std_dev_summary: `if (const int dof = degrees_of_freedom()) { test = ...; <ratio>test } "
+         "else <ratio>0`")
+    # ---- XML writer, observations: <err-obs>, <err-adj> (before the unit scale `sc`)
+    m1 = re.search(r'double\s+em\s*=\s*([^;]+);\s*out\s*<<\s*"\\n\s*<err-obs>"\s*<<\s*em\*sc\s*<<\s*"</err-obs>";\s*'
+                   r'double\s+ev\s*=\s*([^;]+);\s*out\s*<<\s*"\s*<err-adj>"\s*<<\s*ev\*sc\s*<<', x)
+    if not m1:
+        raise Unreadable("localnetworkxml.cpp: <err-obs>/<err-adj> changed")
+    sub = lambda t: re.sub(r"\bv\(i\)", "v", t.replace("netinfo->wcoef_res(i)", "qvv").replace("netinfo->weight_obs(i)", "w"))
+    em = Emit({"v": "K", "qvv": "K", "w": "K"}, outs=["em", "ev"])
+    emit("errObsAdj", "(v qvv w : K)", "K × K",
+         em.function([("decl", "double", "em", parse_expr(sub(m1.group(1)))),
+                      ("decl", "double", "ev", parse_expr(sub(m1.group(2)))), ("return", None)]),
+         "localnetworkxml.cpp observations: `em = v(i)/(wcoef_res(i)*weight_obs(i)); ev = em - v(i)` (<err-obs>, <err-adj>)")
+
     head = ("/-\n  GENERATED by tools/gen/c09_stats.py from lib/gnu_gama/local/network.{h,cpp} and\n"
             "  lib/gnu_gama/xml/localnetworkxml.cpp of the current tree.  DO NOT EDIT.\n"
             "  Props/C09.lean proves that every definition here equals the reference model in\n"
